@@ -407,7 +407,9 @@ def tasks(tier):
     if not q:
         shapes += [{'kex': (1, 1, 1), 'key': (1,), 'enc': (1,), 'mac': (1,)}, {'kex': (2, 1), 'key': (1, 1), 'enc': (1,), 'mac': (1,)},
                    {'kex': (1,), 'key': (1,), 'enc': (1, 1, 1), 'mac': (1,)}, {'kex': (3,), 'key': (1,), 'enc': (1,), 'mac': (1,)},
-                   {'kex': (1, 1), 'key': (1, 1), 'enc': (1, 1), 'mac': (1, 1)}]
+                   {'kex': (1, 1), 'key': (1, 1), 'enc': (1, 1), 'mac': (1, 1)}, {'kex': (2, 2), 'key': (2,), 'enc': (2, 2), 'mac': (2,)},
+                   {'kex': (1,), 'key': (3, 1), 'enc': (1,), 'mac': (3,)}, {'kex': (4,), 'key': (1,), 'enc': (4,), 'mac': (1,)},
+                   {'kex': (1, 1, 1, 1), 'key': (1,), 'enc': (1,), 'mac': (1,)}, {'kex': (1,), 'key': (1,), 'enc': (1,), 'mac': (1, 1, 1, 1)}]
     for sh in shapes:
         T.append(CreateLoadEval(sh))
     for hk in ('', 'ssh-rsa', 'ssh-ed25519'):
@@ -415,10 +417,16 @@ def tasks(tier):
         T.append(CreateLoadEval(one, hk=hk, dh=4))
     T.append(CreateLoadEval(one, dh=4))
     T.append(CreateLoadEval(one, dh=1))
+    if not q:
+        for d in (2, 3, 5):
+            T.append(CreateLoadEval(one, dh=d))
+            T.append(CreateLoadEval(one, hk='ssh-rsa', dh=d))
+        T.append(CreateLoadEval(one, hk='ecdsa-sha2-nistp256', dh=4))
+        T.append(CreateLoadEval(one, hk='ssh-ed25519', dh=4, client=True))
     T.append(CreateLoadEval(one, hk='ssh-rsa', dh=4, client=True))
     T.append(CreateLoadEval(one, client=True))
     for f in FIELDS:
-        for n in ((1, 2) if q else (1, 2, 3)):
+        for n in ((1, 2) if q else (1, 2, 3, 4)):
             for pos in range(n):
                 T.append(Drift(f, 'replace', n, pos))
                 T.append(Drift(f, 'delete', n, pos))
